@@ -59,6 +59,8 @@ type Scenario struct {
 		// Stall: the broker accepts nothing until every producer has returned (or 20 s have passed): a flood
 		// against a stalled broker.  The run is then judged on counts (the item list would be too long).
 		Stall bool `json:"stall,omitempty"`
+		// PadKB > 0: every event carries a payload of that many kilobytes (integrated-service events with a long Payload)
+		PadKB int `json:"pad_kb,omitempty"`
 	} `json:"free,omitempty"`
 }
 
@@ -86,6 +88,10 @@ func makeEvent(p string, n int) interface{} {
 	default:
 		return &pb.Ev_IntegratedServiceEvent{EnvironmentId: env, Name: id}
 	}
+}
+
+func makeBigEvent(p string, n int, padKB int) interface{} {
+	return &pb.Ev_IntegratedServiceEvent{EnvironmentId: "env-" + p, Name: p + ":" + strconv.Itoa(n), Payload: strings.Repeat("x", padKB*1024)}
 }
 
 func decode(m kafka.Message) (id string, env string, key string, err error) {
@@ -384,7 +390,11 @@ func runFree(rec *vtrace.Recorder, sc *Scenario) {
 		go func(p string) {
 			defer wg.Done()
 			for n := 1; n <= sc.Free.NEvents; n++ {
-				w.WriteEvent(makeEvent(p, n))
+				if sc.Free.PadKB > 0 {
+					w.WriteEvent(makeBigEvent(p, n, sc.Free.PadKB))
+				} else {
+					w.WriteEvent(makeEvent(p, n))
+				}
 				if jitter > 0 && n%7 == 0 {
 					time.Sleep(time.Duration(jitter) * time.Microsecond)
 				}
